@@ -873,15 +873,19 @@ def t_s1c(ctx: Ctx, rule: str) -> None:
                {"per_worker": s1, "per_swarm": s2, "global": s3},
                "" if ok else f"the scope filter of shared_filtered_results changed: per worker {s1!r}, per swarm {s2!r}, global {s3!r}")
     # the filter is applied by containment in the result name, to every shared result
-    loops = [l for l in ast.walk(fn.node) if isinstance(l, ast.For)]
+    # (a list-building loop and a comprehension are the same thing after normalisation)
+    comps = [c for c in ast.walk(fn.node) if isinstance(c, ast.ListComp)]
     ok2 = False
-    if len(loops) == 1 and isinstance(loops[0].target, ast.Name) and v1:
-        r = loops[0].target.id
-        it = ast.unparse(loops[0].iter)
+    if len(comps) == 1 and len(comps[0].generators) == 1 and isinstance(comps[0].generators[0].target, ast.Name) and v1:
+        g = comps[0].generators[0]
+        r = g.target.id
+        it = ast.unparse(g.iter)
         defs = [x for x in ast.walk(fn.node) if isinstance(x, ast.Assign) and ast.unparse(x.targets[0]) == it]
         src = ast.unparse(defs[0].value) if len(defs) == 1 else it
-        conds = [ast.unparse(i.test) for i in ast.walk(loops[0]) if isinstance(i, ast.If)]
-        ok2 = src == "self.shared_results" and conds == [f"{v1} in {r}['name']"]
+        conds = [ast.unparse(t) for t in g.ifs]
+        rets = [x for x in ast.walk(fn.node) if isinstance(x, ast.Return)]
+        ok2 = src == "self.shared_results" and conds == [f"{v1} in {r}['name']"] and ast.unparse(comps[0].elt) == r and len(rets) == 1 \
+            and (rets[0].value is comps[0] or (isinstance(rets[0].value, ast.Name) and any(isinstance(x, ast.Assign) and x.value is comps[0] and ast.unparse(x.targets[0]) == rets[0].value.id for x in ast.walk(fn.node))))
     ctx.record(rule + "b", "PROV", fref, "filtered results = shared results whose name contains the scope filter", ok2, {},
                "" if ok2 else "shared_filtered_results no longer filters the shared results by the scope identifier")
     for which in ("started", "finished"):
